@@ -214,7 +214,13 @@ class Summaries:
                 return None
             return [mk("placeref", pr.args[0], tuple(pr.args[1]) + (("i", lit(k)),)) for k in range(n)]
         if it.op == "iter":
-            return self.concrete_seq(I, it.args[0])
+            r = self.concrete_seq(I, it.args[0])
+            if r is None and it.args[0].op not in ("iter", "rev", "zip", "enumerate", "iter_mut", "struct", "range_incl"):
+                # an opaque array of statically known length (type-checked `[T; N]`): its items are the index terms
+                n = I.length_of(it.args[0])
+                if n is not None and n <= 16:
+                    return [Tm.index(it.args[0], lit(k)) for k in range(n)]
+            return r
         if it.op == "zip":
             a, b = self.concrete_seq(I, it.args[0]), self.concrete_seq(I, it.args[1])
             # a symbolic side with a statically known length (an array parameter / field): its items are index terms
@@ -233,6 +239,11 @@ class Summaries:
         if it.op == "enumerate":
             a = self.concrete_seq(I, it.args[0])
             return None if a is None else [mk("tuple", lit(i), x) for i, x in enumerate(a)]
+        if it.op not in ("struct", "map", "chain", "filter", "take", "skip", "chunks", "sym", "param"):
+            # an opaque array value of statically known length (type-checked `[T; N]`) iterated by value / by reference
+            n = I.lengths.get(it)
+            if n is not None and n <= 16:
+                return [Tm.index(it, lit(k)) for k in range(n)]
         return None
 
     # ---- the table -------------------------------------------------------------------------------
@@ -560,6 +571,15 @@ class Summaries:
         # integers
         if tp == "core::num::<impl u64>::pow" and Tm.is_lit(a[0]) and Tm.is_lit(a[1]):
             return lit(a[0].args[0] ** a[1].args[0])
+        if tp == "subtle::Choice::unwrap_u8":
+            return Tm.choice_u8(a[0])
+        m_ = re.match(r"core::num::<impl [ui](8|16|32|64|128|size)>::wrapping_(neg|sub)$", tp)
+        if m_:
+            # the all-ones / all-zeros mask of a 0/1 word: x.wrapping_neg(), 0.wrapping_sub(x)
+            x = a[0] if m_.group(2) == "neg" else (a[1] if Tm.is_lit(a[0]) and a[0].args[0] == 0 and a[0].args[0] is not False else None)
+            r = Tm.mask_of(x) if x is not None else None
+            if r is not None:
+                return r
         if tp == "core::num::<impl u64>::to_le_bytes":
             return mk("le_bytes_of_u64", a[0])
         if tp == "core::num::<impl u64>::from_le_bytes":
@@ -573,6 +593,9 @@ class Summaries:
             inner = ctx.arg_ty(0)
             r = self.eq_dispatch(ctx, a[0], a[1], inner)
             return r if name == "eq" else not_(r)
+        if tp in ("core::cmp::Ord::cmp", "core::cmp::PartialOrd::partial_cmp") and s0[0] == "int" and len(a) == 2:
+            v = mk("icmp", a[0], a[1])      # three-way comparison of two primitive integers
+            return v if name == "cmp" else variant("Some", v)
         if tp in ("core::cmp::Ord::cmp", "core::cmp::PartialOrd::partial_cmp") and "core::array" in key:
             v = mk("lex_cmp", a[0], a[1])
             return v if name == "cmp" else variant("Some", v)
@@ -586,7 +609,7 @@ class Summaries:
             return UNIT
         # subtle
         if tp == "subtle::ConditionallySelectable::conditional_select" and s0[0] == "int":
-            return ite(mk("choice_true", a[2]), a[1], a[0])
+            return ite(Tm.choice_true(a[2]), a[1], a[0])
         if tp == "core::convert::From::from" and "subtle::Choice" in key:
             return a[0]
         if tp == "core::ops::Not::not" and s0[0] == "choice":
@@ -1093,7 +1116,7 @@ class Summaries:
             ctx.effect("isqrt_call", mk("strlit", name), a[0], a[1])
             return mk("tuple", mk("isqrt_sq", a[0], a[1]), mk("isqrt_v", a[0], a[1]))
         if name == "conditional_select":
-            return ite(mk("choice_true", a[2]), a[1], a[0])
+            return ite(Tm.choice_true(a[2]), a[1], a[0])
         if name == "ct_eq":
             return eq(a[0], a[1])
         if name == "to_le_limbs":
@@ -1172,7 +1195,7 @@ class Summaries:
         if name == "double" and len(a) == 1 and sorts[0] == "element" and "min_curve" in key:
             return mk("gdbl", a[0])
         if name == "conditional_select" and sorts[0] == "element":
-            return ite(mk("choice_true", a[2]), a[1], a[0])
+            return ite(Tm.choice_true(a[2]), a[1], a[0])
         return NotImplemented
 
     # ---- r1cs-std ---------------------------------------------------------------------------------
